@@ -41,7 +41,9 @@ func splitHexList(s string) []string {
 // contexts of the typed prefix: text before it and text after it on the same line (the program stays valid)
 var c14Contexts = [][2]string{{"local zq = ", ""}, {"local zq = \"s\"..", ""}, {"local zq = print..", ""}, {"local zq = 1 + ", ""}, {"local zq = 1+", ""},
 	{"local zq = -", ""}, {"local zq = #", ""}, {"local zq = not ", ""}, {"local zq = (", ")"}, {"print(", ")"}, {"local zq = {", "}"}, {"local zq = { 1, ", " }"},
-	{"local zq = print(1, ", ")"}, {"local zq = 1 == ", ""}, {"local zq = 2 .. ", ""}, {"zq = ", ""}, {"local zq = zq2 or ", ""}, {"local zq = zq2[", "]"}}
+	{"local zq = print(1, ", ")"}, {"local zq = 1 == ", ""}, {"local zq = 2 .. ", ""}, {"zq = ", ""}, {"local zq = zq2 or ", ""}, {"local zq = zq2[", "]"},
+	// a string that contains the comment marker earlier on the line
+	{"local zqs = \"--\" local zq = ", ""}, {"local zqs = '--[[' local zq = ", ""}}
 
 func runC14(res *lib.Result, tier string, seed int64, args []string) error {
 	nProg, nPos := 120, 6
